@@ -43,8 +43,8 @@ Inductive action :=
 Record summary := { sm_settings : settings; sm_action : action }.
 
 (* HelpResolver.resolve + DefaultResolver.resolve + HelpResolver.create_resolved_command: a leading "help"
-   token is dropped; default (sub-)commands are probed with their own leniency (the probe result is
-   cached), the command itself is parsed leniently *)
+   token is dropped; default (sub-)commands are probed with their own leniency, then the command picked
+   is parsed again leniently (a fresh ResolveResult since the fix of HelpResolver.create_resolved_command) *)
 Definition help_target (a : application) (toks : list str) : res (list str) :=
   let toks := match toks with t :: r => if str_eqb t S_help then r else toks | [] => [] end in
   let names := leading toks in
@@ -53,7 +53,7 @@ Definition help_target (a : application) (toks : list str) : res (list str) :=
   | Some (b, path) =>
     do d <- pick_default (defaults_of (b_subs b)) toks None;
     match d with
-    | Some (dc, r) => do x <- r; Ok (path ++ [b_name dc])
+    | Some (dc, r) => do x <- parse (b_fmt dc) true toks; Ok (path ++ [b_name dc])
     | None => do x <- parse (b_fmt b) true toks; Ok path
     end
   | None =>
@@ -62,7 +62,7 @@ Definition help_target (a : application) (toks : list str) : res (list str) :=
     | [] =>
       do d <- pick_default (defaults_of (ap_cmds a)) toks None;
       match d with
-      | Some (dc, r) => do x <- r; Ok [b_name dc]
+      | Some (dc, r) => do x <- parse (b_fmt dc) true toks; Ok [b_name dc]
       | None => Err CannotResolve
       end
     end
